@@ -554,16 +554,153 @@ def rule_e(ctx):
         rd = ret_descs(F, b)
         ctx.check(rd and all(x[0] == 'field' and x[2] == fld for _, x in rd), 'e', 'window_reports_stored_field', b, b.where(), 'returns self.%s' % fld,
                   'Controller::window() no longer returns the floored field')
-    # Bbr::window(): every returned value is self.cwnd, a min(..) capped by self.cwnd, or the probe-rtt window
+    # Bbr::window(): every returned value is a floored quantity: self.cwnd, self.recovery_window, self.min_cwnd, the probe-rtt
+    # window, a min(..) ALL of whose operands are floored quantities (one of them self.cwnd) or a max(..) with one such operand
     b = ctx.pfn('<Bbr as Controller>::window')
     alts = [a for _, x in ret_descs(F, b) for a in flat(x)]
 
     def _bbr_ok(a):
-        if _is_field(a, 'cwnd') or _is_call(a, 'Bbr::get_probe_rtt_cwnd'):
-            return True
-        return a[0] == 'call' and (a[1] in ('Ord::min', 'u64::min', 'cmp::min') or D._trait_form(a[1]) == 'Ord::min') and any(_is_field(y, 'cwnd') for y in a[3])
+        if _is_min_call(a):
+            return any(_is_field(y, 'cwnd') for y in a[3]) and all(_bbr_reported(y) for y in a[3])
+        return _bbr_reported(a)
     ctx.check(bool(alts) and all(_bbr_ok(a) for a in alts) and any(_is_field(a, 'cwnd') for a in alts), 'e', 'window_reports_stored_field', b, b.where(),
-              'returns self.cwnd | min(self.cwnd, ..) | get_probe_rtt_cwnd()', 'Bbr::window() returns a value not bounded by the floored cwnd field: %s' % [D.render(a)[:80] for a in alts])
+              'returns self.cwnd | min(self.cwnd, self.recovery_window) | get_probe_rtt_cwnd()',
+              'Bbr::window() returns a value not bounded by the floored fields cwnd / recovery_window: %s' % [D.render(a)[:120] for a in alts])
+    _bbr_recovery_window(ctx)
+
+
+def _is_min_call(d):
+    return d[0] == 'call' and (d[1] in MIN_CALLS or D._trait_form(d[1]) in MIN_CALLS)
+
+
+def _bbr_floor_value(v):
+    """v >= self.min_cwnd by construction: the field itself, max(..) with such an operand, min(..) of such operands only"""
+    if v[0] == 'phi':
+        return bool(v[1]) and all(_bbr_floor_value(x) for x in v[1])
+    if _is_field(v, 'min_cwnd'):
+        return True
+    if _is_max_call(v):
+        return any(_bbr_floor_value(a) for a in v[3])
+    if _is_min_call(v):
+        return bool(v[3]) and all(_bbr_floor_value(a) for a in v[3])
+    return False
+
+
+def _bbr_reported(a):
+    """a quantity Bbr::window() may report: a field whose stores are floored (cwnd, recovery_window: checked by their own
+    instances), the probe-rtt window, or a floor value / min / max built from those"""
+    if a[0] == 'phi':
+        return bool(a[1]) and all(_bbr_reported(x) for x in a[1])
+    if _is_field(a, 'cwnd') or _is_field(a, 'recovery_window') or _is_call(a, 'Bbr::get_probe_rtt_cwnd') or _bbr_floor_value(a):
+        return True
+    if _is_max_call(a):
+        return any(_bbr_reported(y) for y in a[3])
+    if _is_min_call(a):
+        return bool(a[3]) and all(_bbr_reported(y) for y in a[3])
+    return False
+
+
+def _bbr_recovery_window(ctx):
+    """Bbr::window() reports min(cwnd, recovery_window) while in recovery, so recovery_window carries the same lower bound
+    as cwnd whenever it can be read:
+      * in the function that maintains it (calculate_recovery_window) every store that is the last one on some path to the
+        return stores a value that IS >= min_cwnd by construction (max(.., self.min_cwnd) / self.min_cwnd);
+      * that function leaves recovery_window untouched only over the not-in-recovery edge (window() does not read it then);
+      * any other store that is not floored (the `0 = unset` marker) and every store to recovery_state is followed, on all
+        paths of every caller of the storing function, by calculate_recovery_window, which replaces it before window() can run."""
+    F = ctx.facts
+    crw = ctx.pfn('Bbr::calculate_recovery_window')
+    sv = store_values(ctx, 'Bbr', 'recovery_window')
+    inside = [(w, v) for w, v in sv if w.body.id == crw.id]
+    outside = [(w, v) for w, v in sv if w.body.id != crw.id and w.body.name not in ('new', 'clone', 'clone_box', 'build')]
+    # opaque writers (a &mut borrow handed to a call) cannot be valued: fail closed
+    opaque = [w for w in field_writes(F, 'Bbr', 'recovery_window', crate='quinn_proto', include_borrows=True)
+              if w.kind == 'mutborrow' and not borrow_stores(F, w)]
+    ctx.check(not opaque, 'e', 'bbr_recovery_window_stores_valued', 'Bbr.recovery_window', '', 'every store has a value descriptor',
+              'recovery_window is written through a borrow whose stored value cannot be determined: %s' % [w.where() for w in opaque])
+    blocks = {w.bb for w, v in inside}
+    # the branch form of the floor (as in calculate_cwnd): `if recovery_window < min_cwnd { recovery_window = min_cwnd }`: a test
+    # with exactly these two fields whose "below" edge reaches a return only through a store of min_cwnd
+    floor_tests = set()
+    fstores = {w.bb for w, v in inside if _bbr_floor_value(v)}
+    for br in branches(F, crw):
+        for truth in (True, False):
+            rel = relation_on(br.desc, truth)
+            if rel and rel[0] == 'Lt' and _is_field(rel[1], 'recovery_window') and _is_field(rel[2], 'min_cwnd'):
+                t = br.target(1 if truth else 0)
+                if path_avoiding(crw, [t], crw.return_blocks(), fstores) is None:
+                    floor_tests.add(br.bb)
+    n = 0
+    for w, v in inside:
+        if any(x.bb == w.bb and x.idx > w.idx for x, _ in inside):
+            continue
+        p = path_avoiding(crw, crw.succ[w.bb], crw.return_blocks(), blocks - {w.bb})
+        if p is None and crw.succ[w.bb]:
+            continue   # overwritten on every path
+        n += 1
+        if not _bbr_floor_value(v) and floor_tests and (w.bb in floor_tests or
+                path_avoiding(crw, crw.succ[w.bb], crw.return_blocks(), (blocks - {w.bb}) | floor_tests) is None):
+            ctx.ok('e', 'bbr_recovery_window_final_store_has_floor', crw, w.where(), 'followed on every path by `if recovery_window < min_cwnd { = min_cwnd }`')
+            continue
+        ctx.check(_bbr_floor_value(v), 'e', 'bbr_recovery_window_final_store_has_floor', crw, w.where(), D.render(v)[:160],
+                  'a last store to Bbr.recovery_window is not max(.., self.min_cwnd): window() = min(cwnd, recovery_window) can fall below '
+                  'the minimum window: %s' % D.render(v)[:300])
+    ctx.floor('e', 'bbr_recovery_window_final_stores', n, 2)
+    # no store only when not in recovery
+    skip_edges = set()
+    for br in branches(F, crw):
+        inner, neg = peel_not(br.desc)
+        if _is_call(inner, 'RecoveryState::in_recovery') and inner[3] and _is_field(inner[3][0], 'recovery_state'):
+            skip_edges.add((br.bb, br.target(1 if neg else 0)))   # edge on which in_recovery() is false
+            continue
+        # ... or as a match on the discriminant: the edge(s) taken for the NotInRecovery variant only
+        if br.desc[0] == 'discr' and _is_field(br.desc[1], 'recovery_state'):
+            vs = [v['name'] for v in F.adt('bbr::RecoveryState')['variants']]
+            if 'NotInRecovery' in vs:
+                t = br.target(vs.index('NotInRecovery'))
+                if all(br.target(i) != t for i, nm in enumerate(vs) if nm != 'NotInRecovery'):
+                    skip_edges.add((br.bb, t))
+            continue
+        # the same test spelled as a comparison: recovery_state == RecoveryState::NotInRecovery
+        rel = relation_on(br.desc, True)
+        if rel and rel[0] in ('Eq', 'Ne'):
+            ops = (rel[1], rel[2])
+            if any(_is_field(x, 'recovery_state') for x in ops) and \
+                    any(x[0] == 'agg' and x[1] == 'adt' and x[2].endswith('RecoveryState::NotInRecovery') for x in ops):
+                skip_edges.add((br.bb, br.true_target() if rel[0] == 'Eq' else br.false_target()))
+    free = crw.reachable_from(0, avoid=blocks, avoid_edges=skip_edges) if 0 not in blocks else set()
+    leak = [r for r in crw.return_blocks() if r in free]
+    ctx.check(bool(skip_edges) and not leak, 'e', 'bbr_recovery_window_set_whenever_in_recovery', crw, crw.where(),
+              'returns without a store only over the !in_recovery() edge',
+              'calculate_recovery_window can return while in recovery without storing recovery_window (the 0 sentinel / a stale value stays readable)')
+    # unfloored stores elsewhere (the `0 = unset` marker written on entering recovery) and every change of recovery_state
+    # (the switch that makes window() read recovery_window) are followed by calculate_recovery_window in every caller
+    sites = [(w, 'recovery_window = ' + D.render(v)[:80]) for w, v in outside if not _bbr_floor_value(v)]
+    sites += [(w, 'recovery_state store') for w in field_writes(F, 'Bbr', 'recovery_state', crate='quinn_proto', include_borrows=True)
+              if w.body.name not in ('new', 'clone', 'clone_box', 'build')]
+    nrw = 0
+    for w, what in sites:
+        nrw += what == 'recovery_state store'
+        r = F.root_of(w.body)
+        if r.id == crw.id:
+            ctx.bad('e', 'bbr_recovery_window_reset_then_recomputed', r, w.where(), 'calculate_recovery_window itself changes recovery_state')
+            continue
+        if w.body.id == r.id and (w.bb in must_sites(F, r, ['Bbr::calculate_recovery_window'], 1) or
+                                  must_follow(F, r, w.bb, ['Bbr::calculate_recovery_window'], 1) is None):
+            ctx.ok('e', 'bbr_recovery_window_reset_then_recomputed', r, w.where(), '%s; followed by calculate_recovery_window in the same function' % what)
+            continue
+        callers = F.callers_of(r.short, crate='quinn_proto')
+        okc = bool(callers)
+        why = 'no caller found for %s' % r.short
+        for c in callers:
+            p = must_follow(F, c.body, c.bb, ['Bbr::calculate_recovery_window'], 1)
+            if p is not None:
+                okc = False
+                why = 'in %s a path after the call avoids calculate_recovery_window: %s' % (F.root_of(c.body).short, fmt_path(c.body, p))
+        ctx.check(okc, 'e', 'bbr_recovery_window_reset_then_recomputed', r, w.where(),
+                  '%s; every call of %s is followed by calculate_recovery_window (%d caller(s))' % (what, r.short, len(callers)),
+                  'an unfloored recovery_window (%s) can be read by window(): %s' % (what, why))
+    ctx.floor('e', 'bbr_recovery_state_stores', nrw, 1)
 
 
 MAX_CALLS = ('Ord::max', 'u64::max', 'cmp::max')
